@@ -684,7 +684,7 @@ def send(prog, chk, rule="send-table"):
                         if not same_value(st, s["from"], s0["local_addr"]) or not same_value(st, s["to"], to):
                             problems.append("recorded addresses (%r, %r) are not (local address, destination)" % (s["from"], s["to"]))
                         if variant_of(prog, s["last_send_time"]) != "Some" or not same_value(st, s["last_send_time"].v[1].get(0), now):
-                            problems.append("recorded last_send_time %r is not Some(now)" % (s["last_send_time"],))
+                            problems.append("recorded last_send_time %r is not Some(now) (instant provenance)" % (s["last_send_time"],))
                         ti = s["timeout_i"]
                         if not (isinstance(ti, Num) and st.sys.const_value(ti.e) == 0):
                             problems.append("recorded timeout_i %r is not 0" % (ti,))
@@ -744,6 +744,7 @@ def agent_poll(prog, chk, rule="agent-poll-table"):
 
     def pre(it, st, fr, args):
         st.cells["ghost:polled"] = args[0] if args else TOP
+        st.cells["ghost:polled_now"] = args[1] if len(args) > 1 else TOP
 
     def post(it, st, fr, ret):
         who = st.cells.get("ghost:polled")
@@ -753,7 +754,7 @@ def agent_poll(prog, chk, rule="agent-poll-table"):
         if isinstance(who, Ref):
             sv = it.load(st, who.cell, who.path)
             tid = Fields(prog, REQ, sv)["transaction_id"]
-        event_once(st, "reqpoll", out, ref_id(who), payload, tid)
+        event_once(st, "reqpoll", out, ref_id(who), payload, tid, st.cells.get("ghost:polled_now"))
     results = []
     modes = ("any number of requests (one summary request)", "two requests")     # three distinct requests do not finish in reasonable time
     for mode in modes:
@@ -829,6 +830,10 @@ def agent_poll(prog, chk, rule="agent-poll-table"):
                 problems.append("waiting changes the transaction map: %r" % ([e[:4] for e in mutated],))
         else:
             problems.append("unknown outcome")
+        now = st.cells.get(r.it.cell_of(r.fr, arg["now"])) if "now" in arg else None
+        for e in polls:
+            if len(e) > 5 and now is not None and not same_value(st, e[5], now):
+                problems.append("a request is polled with the instant %r, not the `now` the caller gave (instant provenance)" % (e[5],))
         if len(decisive) > 1:
             problems.append("requests are polled after a decisive outcome: %r" % ([e[1] for e in polls],))
         if other_ev:
